@@ -268,7 +268,8 @@ def test_oracle(c):
     return None
 
 
-GENERATED_THEOREMS = ("reader_unrecovered_goroutines_accounted", "handler_loops_receive_until_close", "locks_released_on_every_path")
+GENERATED_THEOREMS = ("reader_unrecovered_goroutines_accounted", "handler_loops_receive_until_close", "locks_released_on_every_path",
+                      "sending_goroutines_close_on_every_path", "channel_ops_accounted")
 
 
 def props_split(ck):
@@ -278,10 +279,14 @@ def props_split(ck):
     src = open(os.path.join(vcheck.COQ, "props", "C12.v")).read()
     ck.obligations = [o for o in ck.obligations if not o[0].startswith("theorem ")]
     ok_deps, _ = ck.coq_make(["proofs/ReadPathProofs.vo", "gen/GenGoroutinesReader.vo"])
-    txt = ("From Coq Require Import List String.\nFrom Qryn Require Import model.ReaderGoroutines gen.GenGoroutinesReader.\n"
+    txt = ("From Coq Require Import List String.\nFrom Qryn Require Import model.ReaderGoroutines model.ReaderFlow gen.GenGoroutinesReader.\n"
            "Eval vm_compute in (unaccounted reader_goroutines, stale reader_goroutines, map (recovers_at reader_goroutines) must_recover).\n"
            "Eval vm_compute in (unaccounted_loops reader_loops).\n"
-           "Eval vm_compute in (unaccounted_locks reader_locks).\n")
+           "Eval vm_compute in (unaccounted_locks reader_locks).\n"
+           "Eval vm_compute in (failing_flows reader_lock_flows).\n"
+           "Eval vm_compute in (stale_reviews reader_lock_flows, Nat.eqb (total_acq reader_lock_flows) (List.length reader_locks)).\n"
+           "Eval vm_compute in (failing_flows reader_close_flows).\n"
+           "Eval vm_compute in (unaccounted_chanops reader_chanops).\n")
     rc, out = ck.coq_eval("C12_inventory", txt)
     flat = " ".join(out.split())
     parts = re.findall(r"= (.*?) : (?:list|\()", " " + flat)
@@ -289,8 +294,13 @@ def props_split(ck):
                   "(unaccounted goroutines, allow-listed sites that disappeared, must-recover sites recovering) " + (parts[0][:900] if parts else flat[:900]))
     ck.obligation("theorem handler_loops_receive_until_close", rc == 0 and len(parts) > 1 and parts[1].strip() == "nil",
                   "handler loops that can leave before their channel is closed and are not allow-listed: " + (parts[1][:900] if len(parts) > 1 else flat[-600:]))
-    ck.obligation("theorem locks_released_on_every_path", rc == 0 and len(parts) > 2 and parts[2].strip() == "nil",
-                  "Lock()/RLock() statements that some way out of their region does not give back: " + (parts[2][:900] if len(parts) > 2 else flat[-600:]))
+    ck.obligation("theorem locks_released_on_every_path", rc == 0 and len(parts) > 4 and parts[2].strip() == "nil" and parts[3].strip() == "nil" and parts[4].strip().startswith("(nil, true"),
+                  "Lock()/RLock() statements that some way out of their region does not give back: %s; control-flow models with a path that keeps / double-locks / double-unlocks the mutex: %s; (stale reviewed entries, every Lock statement is in a model): %s" % (
+                      parts[2][:600] if len(parts) > 2 else flat[-600:], parts[3][:600] if len(parts) > 3 else "?", parts[4][:300] if len(parts) > 4 else "?"))
+    ck.obligation("theorem sending_goroutines_close_on_every_path", rc == 0 and len(parts) > 5 and parts[5].strip() == "nil",
+                  "goroutine bodies with a path on which a channel they send on is not closed exactly once: " + (parts[5][:900] if len(parts) > 5 else flat[-600:]))
+    ck.obligation("theorem channel_ops_accounted", rc == 0 and len(parts) > 6 and parts[6].strip() == "nil",
+                  "goroutine bodies whose channel operations differ from the reviewed ones (or a select without Done/default, or sends without close): " + (parts[6][:900] if len(parts) > 6 else flat[-600:]))
     rest = src
     for t in GENERATED_THEOREMS:
         rest = re.sub(r"Theorem %s\b.*?Print Assumptions %s\.\n" % (t, t), "", rest, flags=re.S)
